@@ -239,7 +239,7 @@ class Shift(Entry):
                     if form in ("0d", "int-scalar", "np-scalar"):
                         lons = [r.choice(lons)]
                     add(lons, sh, r.random() < 0.7, "forms", form=form, shift_type=r.choice(["py", "np.float64", "np.int64", "0d"]),
-                        kw=r.choice(["omit", "explicit"]))
+                        kw=r.choice(["omit", "explicit"]), wrap_form=r.choice(FLAG_FORMS))
             # long arrays (beyond any plausible block size): a few distinct longitudes tiled
             for n in ([4097] if ctx.quick() else [4097, 65537, 100001]):
                 add([r.randrange(0, 360 * 64) / 64.0 for _ in range(9)] + [350.0, 10.0, 190.0], r.choice([-10.0, 10.0, 350.0]), True,
@@ -314,7 +314,7 @@ class Shift(Entry):
             if sh is not None or c.get("kw") == "explicit":
                 kw["shift"] = sh
             if not (c.get("kw") == "omit" and c["wrap"] is True):
-                kw["wrap"] = c["wrap"]
+                kw["wrap"] = flagv(c["wrap"], c.get("wrap_form"))
             keep = snapshot(arg)
             out = fn(arg, **kw)
             out = [jf(x) for x in np.asarray(out, dtype="f8").ravel()]
@@ -358,6 +358,28 @@ class Shift(Entry):
         return "C09.shiftlon:%s" % c.get("family")
 
 
+FLAG_FORMS = ("bool", "np.bool_", "int", "np.int64", "0d", "np.float64")
+
+
+def flagv(v, form):
+    """the boolean keyword value v in another truthy / falsy spelling"""
+    import numpy as np
+    v = bool(v)
+    if form in (None, "bool"):
+        return v
+    if form == "np.bool_":
+        return np.bool_(v)
+    if form == "int":
+        return int(v)
+    if form == "np.int64":
+        return np.int64(int(v))
+    if form == "0d":
+        return np.array(v)
+    if form == "np.float64":
+        return np.float64(1.0 if v else 0.0)
+    raise AssertionError("unknown flag form %r" % form)
+
+
 def call_conv(c, pts, scalar):
     """run one conversion of the REAL code on the points (one array call, or one scalar call per point);
     returns a list of output tuples of python floats (nan/inf kept)"""
@@ -370,7 +392,7 @@ def call_conv(c, pts, scalar):
     def ekw():
         k = {}
         if not (kwm == "omit" and not c["b1950"]):
-            k["b1950"] = c["b1950"]
+            k["b1950"] = flagv(c["b1950"], c.get("flag_form"))
         if kwm == "explicit" or c.get("dtype"):
             k["dtype"] = c.get("dtype") or "f8"
             if k["dtype"] == "np.float64":
@@ -382,7 +404,7 @@ def call_conv(c, pts, scalar):
         if not (kwm == "omit" and c["units"] == "deg"):
             k["units"] = c["units"]
         if not (kwm == "omit" and not c["stomp"]):
-            k["stomp"] = c["stomp"]
+            k["stomp"] = flagv(c["stomp"], c.get("flag_form"))
         return k
 
     def one(a, d, form=None):
@@ -500,7 +522,8 @@ class Forms(Entry):
             # every form with every entry point (the cases are cheap: one call and one exact-rational term each)
             sel_fns = fns
             for fn, _ in sel_fns:
-                c = {"form": form, "family": "form:" + form, "kw": r.choice(["omit", "explicit", None])}
+                c = {"form": form, "family": "form:" + form, "kw": r.choice(["omit", "explicit", None]),
+                     "flag_form": r.choice(FLAG_FORMS)}
                 if c["kw"] == "explicit" and fn in ("euler", "wrapper"):
                     c["dtype"] = r.choice(["f8", "float64", "<f8", "np.float64", "d", ">f8"])     # spellings of binary64 (and big-endian)
                 lo1, hi1, lo2, hi2 = 0.0, 360.0, -90.0, 90.0
@@ -594,7 +617,7 @@ class Reuse(Entry):
         cs = []
         fns = ["euler", "wrapper", "eq2sdss", "sdss2eq", "eq2xyz", "xyz2eq", "rotate"]
         for fn in (fns if not ctx.quick() or round else fns):
-            c = {"family": "reuse:" + fn}
+            c = {"family": "reuse:" + fn, "flag_form": r.choice(FLAG_FORMS)}
             lo1, hi1, lo2, hi2 = 0.0, 360.0, -90.0, 90.0
             if fn in ("euler", "wrapper"):
                 sel = r.randrange(1, 7)
@@ -707,7 +730,7 @@ class History(Entry):
         cs = []
 
         def ecall(sel, b, via_euler=False, dtype=None):
-            c = {"fn": "euler" if via_euler else WRAPPER[sel], "sel": sel, "b1950": b}
+            c = {"fn": "euler" if via_euler else WRAPPER[sel], "sel": sel, "b1950": b, "flag_form": r.choice(FLAG_FORMS)}
             if dtype:
                 c["dtype"] = dtype
             return {"conv": c, "pt": list(sphere_pt(r))}
@@ -843,8 +866,8 @@ def conv_of(it):
     """the `call_conv` description of the conversion of a certificate item and of its inverse"""
     k = it["kind"]
     if k in ("euler", "euler_pair"):
-        fwd = {"fn": it.get("via", WRAPPER[it["sel"]]), "sel": it["sel"], "b1950": it["b1950"]}
-        bwd = {"fn": WRAPPER[INV[it["sel"]]], "sel": INV[it["sel"]], "b1950": it["b1950"]}
+        fwd = {"fn": it.get("via", WRAPPER[it["sel"]]), "sel": it["sel"], "b1950": it["b1950"], "flag_form": it.get("flag_form")}
+        bwd = {"fn": WRAPPER[INV[it["sel"]]], "sel": INV[it["sel"]], "b1950": it["b1950"], "flag_form": it.get("flag_form_inv")}
         return fwd, bwd
     if k in ("rotate", "rotate_pair"):
         fwd = {"fn": "rotate", "phi": it["phi"], "theta": it["theta"], "psi": it["psi"], "angle_type": it.get("angle_type")}
@@ -898,16 +921,17 @@ def evaluate(it):
     elif k == "chain":
         p = tuple(it["pt"])
         b = it["b1950"]
+        f3 = it.get("flag_forms") or [None, None, None]
         if it["dir"] == "ec2gal":
-            direct = call_conv({"fn": "ec2gal", "b1950": b}, [p], True)[0]
-            mid = call_conv({"fn": "ec2eq", "b1950": b}, [p], True)[0]
+            direct = call_conv({"fn": "ec2gal", "b1950": b, "flag_form": f3[0]}, [p], True)[0]
+            mid = call_conv({"fn": "ec2eq", "b1950": b, "flag_form": f3[1]}, [p], True)[0]
             need_finite("mid", mid)
-            ch = call_conv({"fn": "eq2gal", "b1950": b}, [mid], True)[0]
+            ch = call_conv({"fn": "eq2gal", "b1950": b, "flag_form": f3[2]}, [mid], True)[0]
         else:
-            direct = call_conv({"fn": "gal2ec", "b1950": b}, [p], True)[0]
-            mid = call_conv({"fn": "gal2eq", "b1950": b}, [p], True)[0]
+            direct = call_conv({"fn": "gal2ec", "b1950": b, "flag_form": f3[0]}, [p], True)[0]
+            mid = call_conv({"fn": "gal2eq", "b1950": b, "flag_form": f3[1]}, [p], True)[0]
             need_finite("mid", mid)
-            ch = call_conv({"fn": "eq2ec", "b1950": b}, [mid], True)[0]
+            ch = call_conv({"fn": "eq2ec", "b1950": b, "flag_form": f3[2]}, [mid], True)[0]
         need_finite("direct", direct)
         need_finite("chained", ch)
         lem.append(("chain", "ok", "within_sky tol5 %s %s" % (ud(direct), ud(ch))))
@@ -990,8 +1014,11 @@ def cert_items(ctx):
             else:
                 keep = pts
             for p, fam in keep:
+                # the epoch flag in every truthy / falsy spelling, differently in the conversion and in its inverse
+                ff = FLAG_FORMS[(sel + len(items)) % len(FLAG_FORMS)]
                 items.append({"kind": "euler", "sel": sel, "b1950": b, "pt": list(p), "family": "euler:" + fam,
-                              "via": r.choice(["euler", WRAPPER[sel]]), "scalar": r.random() < 0.5})
+                              "via": r.choice(["euler", WRAPPER[sel]]), "scalar": r.random() < 0.5,
+                              "flag_form": ff, "flag_form_inv": r.choice([f for f in FLAG_FORMS if f != ff])})
             for _ in range(scale if not (ctx.quick() and (sel + b) % 2) else 0):
                 p = r.choice(pts)[0]
                 q, fam = pair_near(r, p)
@@ -1004,7 +1031,8 @@ def cert_items(ctx):
             for _ in range(ctx.n(1, 2 * scale)):
                 sel = 5 if d == "ec2gal" else 6
                 p, fam = r.choice(euler_points(r, sel, b, 2))
-                items.append({"kind": "chain", "dir": d, "b1950": b, "pt": list(p), "family": "chain:" + fam})
+                items.append({"kind": "chain", "dir": d, "b1950": b, "pt": list(p), "family": "chain:" + fam,
+                              "flag_forms": [r.choice(FLAG_FORMS) for _ in range(3)]})
     # SDSS
     node = [(95.0, 0.0), (275.0, 0.0), (95.0 + small(r), small(r)), (275.0 + small(r), small(r)), (185.0, 32.5), (5.0, -32.5),
             (0.0, 10.0), (360.0, -10.0), (r.uniform(0, 360), 90.0), (r.uniform(0, 360), -(90.0 - abs(small(r))))]
